@@ -14,7 +14,7 @@ Local Open Scope Z_scope.
 
 Definition K_ENG := 40.    (* [call; size; res; err; init] — one entry per completed engine call *)
 Definition K_BIO := 41.    (* [kind; size; result] *)
-Definition K_ENGCALL := 42.  (* [call; size] — the engine is entered *)
+Definition K_ENGCALL := 42.  (* [call; size; socket] — the engine is entered (the harness logs the descriptor, the model the key) *)
 
 Definition E_NONE := 0. Definition E_SSL := 1. Definition E_WANT_READ := 2. Definition E_WANT_WRITE := 3.
 Definition E_SYSCALL := 5. Definition E_ZERO_RETURN := 6.
@@ -90,7 +90,7 @@ Fixpoint run_bios (k : Z) (n : nat) (args : list Z) : MX Z :=
 
 (* call: 1 SSL_read(size) 2 SSL_write_ex(size) 3 SSL_shutdown 4 SSL_do_handshake; returns (res, SSL_get_error) *)
 Definition engine (k call size : Z) : MX (Z * Z) :=
-  emit K_ENGCALL [call; size] ;;;
+  emit K_ENGCALL [call; size; k] ;;;
   upd_tls k (fun t => t <| t_started := true |>) ;;;
   x <- get_ext ;;
   match x_eng x with
